@@ -487,6 +487,7 @@ def main(argv):
     seed = int(os.environ.get("VERIF_SEED", "0") or 0)
     sys.path.insert(0, os.path.join(VERIF, "harness"))
     ctx = Ctx(prop, tier, seed)
+    os.chdir(ctx.build)  # BLDFM drops fftw_wisdom.pkl / .bldfm_cache into cwd
     mod = importlib.import_module("props." + prop.lower())
     ctx.trusted = list(TRUSTED_COMMON) + list(getattr(mod, "TRUSTED", []))
     ctx.assumptions = list(getattr(mod, "ASSUMPTIONS", []))
